@@ -1,6 +1,7 @@
 pub mod alloc;
 pub mod engine;
 pub mod gen;
+pub mod json;
 pub mod obs;
 pub mod props;
 pub mod refdec;
